@@ -365,9 +365,9 @@ func ruleC02R2(r *Run) {
 		}
 		okFirst := false
 		if first != nil {
-			if mc, ok := first.Common().Value.(*ssa.MakeClosure); ok {
-				f := mc.Fn.(*ssa.Function)
-				okFirst = len(p.callsTo(f, "builtin:recover")) == 1 && len(p.callsTo(f, "panicToError")) == 1
+			if f := deferredFn(p, first); f != nil {
+				class, _ := r.classifyRecoverFn(f)
+				okFirst = class == "A" && len(p.callsTo(f, "panicToError")) == 1
 			}
 		}
 		r.Check("checkOnce#recover-first", co.Pos(), okFirst, "the converting recover is the first registered defer of checkOnce: it runs last and sees panics of the property, of cleanups and of the flag consult",
@@ -586,6 +586,13 @@ func (r *Run) classifyRecover(fn *ssa.Function, rv ssa.Value) (string, string) {
 			if c.Referrers() != nil {
 				for _, x := range *c.Referrers() {
 					if st, ok := x.(*ssa.Store); ok && st.Val == ssa.Value(c) {
+						if par, isPar := st.Addr.(*ssa.Parameter); isPar && fn.Parent() == nil {
+							// a named converter deferred as `defer f(&err)`: at every use it is deferred with the
+							// address of the deferring function's error result
+							if host := p.deferredWithResultCell(fn, par); host != nil {
+								return "A", "recover() → panicToError → error result of " + p.fnName(host) + " (through the pointer handed to the deferred converter)"
+							}
+						}
 						if ci := p.cellOf(st.Addr); ci != nil && fn.Parent() != nil {
 							// the cell must be a result of the parent: parent's returns load it
 							for _, ret := range returnsOf(fn.Parent()) {
@@ -739,6 +746,22 @@ func (p *Program) nonEmptyString(v ssa.Value, at ssa.Instruction, d int) bool {
 		return ok && s != ""
 	case *ssa.Convert:
 		return p.nonEmptyString(x.X, at, d+1)
+	case *ssa.ChangeType:
+		return p.nonEmptyString(x.X, at, d+1)
+	case *ssa.Call:
+		// a helper with several returns: each returned value is non-empty where it is returned
+		if sc := x.Common().StaticCallee(); sc != nil && p.transparent(sc) && sc.Signature.Results().Len() == 1 {
+			if o := sc.Origin(); o != nil {
+				sc = o
+			}
+			rets := returnsOf(sc)
+			for _, ret := range rets {
+				if !p.nonEmptyString(p.res(ret, 0), ret, d+1) {
+					return false
+				}
+			}
+			return len(rets) > 0
+		}
 	case *ssa.BinOp:
 		if x.Op == token.ADD {
 			return p.nonEmptyString(x.X, at, d+1) || p.nonEmptyString(x.Y, at, d+1)
@@ -823,4 +846,47 @@ func deferredFn(p *Program, d *ssa.Defer) *ssa.Function {
 		return sc
 	}
 	return nil
+}
+
+
+// deferredWithResultCell: every use of fn is a defer statement that passes, for parameter par, the address of a result
+// cell of the deferring function (a cell its returns load). Returns that function (the last one), nil otherwise.
+func (p *Program) deferredWithResultCell(fn *ssa.Function, par *ssa.Parameter) *ssa.Function {
+	ci := p.callerIndex()[fn]
+	if ci == nil || ci.valueUse || len(ci.sites) == 0 {
+		return nil
+	}
+	idx := -1
+	for k, q := range fn.Params {
+		if q == par {
+			idx = k
+		}
+	}
+	if idx < 0 {
+		return nil
+	}
+	var host *ssa.Function
+	for _, site := range ci.sites {
+		d, ok := site.(*ssa.Defer)
+		if !ok || idx >= len(d.Common().Args) {
+			return nil
+		}
+		cell := p.cellOf(d.Common().Args[idx])
+		if cell == nil {
+			return nil
+		}
+		loaded := false
+		for _, ret := range returnsOf(d.Parent()) {
+			for _, rs := range ret.Results {
+				if u, ok := rs.(*ssa.UnOp); ok && p.cellOf(u.X) == cell {
+					loaded = true
+				}
+			}
+		}
+		if !loaded {
+			return nil
+		}
+		host = d.Parent()
+	}
+	return host
 }
